@@ -36,7 +36,7 @@ const std::vector<std::array<double, 2>> & referenceScan()
 bool inK3Region(double tx, double ty, double th) {return tx >= 0.17 && ty >= 0.17 && th >= 0.044;}
 
 template<class PT>
-bool runIcp(double tx, double ty, double th, Eigen::Matrix3d & est, bool & found)
+bool runIcp(double tx, double ty, double th, Eigen::Matrix3d & est, bool & found, bool kdTreeOverload = false)
 {
   PointSet<PT> src, tgt;
   Eigen::Affine2d T = Eigen::Translation2d(tx, ty) * Eigen::Rotation2Dd(th);
@@ -52,7 +52,12 @@ bool runIcp(double tx, double ty, double th, Eigen::Matrix3d & est, bool & found
     tgt.push_back(t);
   }
   FindRigidTransformationByICP<PT> icp(0.2);
-  found = icp.find(src, tgt, Eigen::Matrix3d::Identity(), FindRigidTransformationByICP<PT>::EstimationMethod::LEAST_SQUARES);
+  if (kdTreeOverload) {
+    KdTree<PT> srcTree(src), tgtTree(tgt);
+    found = icp.find(src, srcTree, tgt, tgtTree, Eigen::Matrix3d::Identity(), FindRigidTransformationByICP<PT>::EstimationMethod::LEAST_SQUARES);
+  } else {
+    found = icp.find(src, tgt, Eigen::Matrix3d::Identity(), FindRigidTransformationByICP<PT>::EstimationMethod::LEAST_SQUARES);
+  }
   est = icp.getTransformation();
   return true;
 }
@@ -84,6 +89,8 @@ void icpBody(vf::Ctx & c)
   bool homogeneous = c.s.flag("homogeneous");
   c.label(homogeneous ? "HomogeneousCoordinates2d" : "Vector2d");
   c.nontrivial(std::hypot(tx, ty) > 0.02 || std::fabs(th) > 0.005);
+  bool treeOverload = c.s.flag("kdtree_overload", 1, 3);
+  if (treeOverload) {c.label("find-overload-with-caller-built-kd-trees");}
   c.commit();
   if (inK3Region(tx, ty, th)) {
     c.label("excluded-known-K3-region");
@@ -91,7 +98,7 @@ void icpBody(vf::Ctx & c)
   }
   Eigen::Matrix3d est;
   bool found;
-  if (homogeneous) {runIcp<HomogeneousCoordinates2d>(tx, ty, th, est, found);} else {runIcp<Eigen::Vector2d>(tx, ty, th, est, found);}
+  if (homogeneous) {runIcp<HomogeneousCoordinates2d>(tx, ty, th, est, found, treeOverload);} else {runIcp<Eigen::Vector2d>(tx, ty, th, est, found, treeOverload);}
   Eigen::Matrix3d truth = (Eigen::Translation2d(tx, ty) * Eigen::Rotation2Dd(th)).matrix();
   double err = (est - truth).norm();
   c.maxStat("icp-frobenius-error", found ? err : 1e9);
